@@ -48,6 +48,54 @@ BuffetRun(tr, b, k, st) ==
             ELSE BuffetRun(tr, b, k + 1, [res |-> res0, fills |-> fills1, wbs |-> st.wbs + (IF dirty THEN 1 ELSE 0)])
 BuffetOp(tr, b) == BuffetRun(tr, b, 1, [res |-> {}, fills |-> 0, wbs |-> 0])
 
+\* ---- cache, operational (traffic.py cacheTraffic callbacks): furthest-next-use replacement with bypass ----
+\* A resident line is [ln, dirty, nu (index of its next access), pinned].  A miss on a read costs one fill, a miss on a write none
+\* (write-allocate without fill).  A line that is never used again is not kept (dropped at its last use, drained if dirty).  A missing
+\* line with a future use is kept if there is room, or if it belongs to the insertion staging area (pinned: never chosen as a victim,
+\* may overflow the capacity), or if its next use comes no later than the furthest next use among the evictable residents - then that
+\* furthest line is the victim (drained if dirty); otherwise the access bypasses the cache (a written-back write goes straight out).
+\* cap is the capacity in lines.
+RECURSIVE CacheEvict(_, _)
+CacheEvict(st, cap) ==
+    LET evictable == {x \in st.res : ~x.pinned} IN
+    IF Cardinality(st.res) + 1 <= cap THEN st
+    ELSE IF evictable = {} THEN [st EXCEPT !.over = @ + 1]
+    ELSE LET far == CHOOSE x \in evictable : \A y \in evictable : y.nu <= x.nu
+         IN CacheEvict([st EXCEPT !.res = @ \ {far}, !.wbs = @ + (IF far.dirty THEN 1 ELSE 0)], cap)
+RECURSIVE CacheRun(_, _, _, _, _)
+CacheRun(tr, b, cap, k, st) ==
+    IF k > Len(tr) THEN st
+    ELSE LET row  == tr[k]
+             ln   == LineOf(row, b)
+             isin == \E x \in st.res : x.ln = ln
+             me   == CHOOSE x \in st.res : x.ln = ln
+             wb   == WrittenBack(row, b)
+             nu   == NextUse(tr, k, b)
+             st1  == [st EXCEPT !.fills = @ + (IF ~isin /\ row.w = 0 THEN 1 ELSE 0)]
+             pinnedNew == b.staged /\ row.pos >= b.shape
+             evictable == {x \in st.res : ~x.pinned}
+             far  == CHOOSE x \in evictable : \A y \in evictable : y.nu <= x.nu
+         IN IF nu = 0
+            THEN IF isin THEN CacheRun(tr, b, cap, k + 1, [st1 EXCEPT !.res = @ \ {me}, !.wbs = @ + (IF me.dirty \/ wb THEN 1 ELSE 0)])
+                 ELSE CacheRun(tr, b, cap, k + 1, [st1 EXCEPT !.wbs = @ + (IF wb THEN 1 ELSE 0)])
+            ELSE IF isin THEN CacheRun(tr, b, cap, k + 1, [st1 EXCEPT !.res = (@ \ {me}) \cup {[me EXCEPT !.nu = nu, !.dirty = @ \/ wb]}])
+            ELSE LET tobuf == Cardinality(st.res) + 1 <= cap \/ pinnedNew \/ (evictable # {} /\ nu <= far.nu)
+                 IN IF ~tobuf THEN CacheRun(tr, b, cap, k + 1, [st1 EXCEPT !.wbs = @ + (IF wb THEN 1 ELSE 0)])
+                    ELSE LET st2 == CacheEvict(st1, cap)
+                         IN CacheRun(tr, b, cap, k + 1, [st2 EXCEPT !.res = @ \cup {[ln |-> ln, dirty |-> wb, nu |-> nu, pinned |-> pinnedNew]}])
+CacheOp(tr, b, cap) == CacheRun(tr, b, cap, 1, [res |-> {}, fills |-> 0, wbs |-> 0, over |-> 0])
+
+\* ---- cache, declarative for read traces: the least number of fills any replacement schedule (keep / bypass / any victim) can achieve ----
+SetMin(S) == CHOOSE x \in S : \A y \in S : x <= y
+RECURSIVE OptFills(_, _, _, _, _)
+OptFills(tr, b, cap, k, res) ==
+    IF k > Len(tr) THEN 0
+    ELSE LET ln == LineOf(tr[k], b) IN
+         IF ln \in res THEN OptFills(tr, b, cap, k + 1, res)
+         ELSE 1 + SetMin({OptFills(tr, b, cap, k + 1, res)}
+                         \cup (IF Cardinality(res) + 1 <= cap THEN {OptFills(tr, b, cap, k + 1, res \cup {ln})} ELSE {})
+                         \cup {OptFills(tr, b, cap, k + 1, (res \ {v}) \cup {ln}) : v \in res})
+
 \* ---- filter: keep the rows of `inp` whose point occurs in `fil` (points compared on the input's ranks) ----
 Filter(inp, fil) == SelectSeq(inp, LAMBDA r : \E k \in 1..Len(fil) : SubSeq(fil[k].coords, 1, Len(r.coords)) = r.coords)
 DistinctLines(tr, b) == Cardinality({LineOf(tr[k], b) : k \in 1..Len(tr)})
